@@ -278,6 +278,9 @@ pub struct LayoutOpts {
     pub header_spacing: bool,
     /// force the final newline to be present / absent (None: by choice if `drop_final_newline`)
     pub final_newline: Option<bool>,
+    /// a carriage return right before the line feed of lines after the header (blank space
+    /// between the last token of a line and the end of the line)
+    pub cr_at_eol: bool,
 }
 
 impl LayoutOpts {
@@ -291,6 +294,7 @@ impl LayoutOpts {
         drop_final_newline: false,
         header_spacing: false,
         final_newline: None,
+        cr_at_eol: false,
     };
     pub const ALL: LayoutOpts = LayoutOpts {
         lead_blank: true,
@@ -302,6 +306,7 @@ impl LayoutOpts {
         drop_final_newline: true,
         header_spacing: true,
         final_newline: None,
+        cr_at_eol: false,
     };
     /// everything C20's statement lists (all after the header line)
     pub const AFTER_HEADER: LayoutOpts = LayoutOpts {
@@ -314,6 +319,7 @@ impl LayoutOpts {
         drop_final_newline: false,
         header_spacing: false,
         final_newline: None,
+        cr_at_eol: true,
     };
 }
 
@@ -424,6 +430,13 @@ pub fn render(lines: &[Line], ch: &mut Ch, opts: LayoutOpts) -> Rendered {
     let crlf = opts.crlf && ch.chance(1, 4);
     st.crlf = crlf;
     let eol = if crlf { "\r\n" } else { "\n" };
+    // CR before LF on every line after the header (the header line itself stays as it is)
+    let cr_body = !crlf && opts.cr_at_eol && ch.chance(1, 3);
+    let body_eol = if cr_body { "\r\n" } else { eol };
+    if cr_body {
+        st.tabs_or_cr += 1;
+        st.crlf = true;
+    }
 
     if opts.lead_blank {
         let n = ch.weighted(&[6, 2, 1, 1, 1]);
@@ -453,7 +466,7 @@ pub fn render(lines: &[Line], ch: &mut Ch, opts: LayoutOpts) -> Rendered {
                 } else if ch.chance(1, 3) {
                     text.push_str(" \t ");
                 }
-                text.push_str(eol);
+                text.push_str(body_eol);
                 line_no += 1;
                 inserted += 1;
                 st.inserted_lines += 1;
@@ -508,7 +521,7 @@ pub fn render(lines: &[Line], ch: &mut Ch, opts: LayoutOpts) -> Rendered {
         if drop_nl {
             st.final_newline = false;
         } else {
-            text.push_str(eol);
+            text.push_str(if is_header { eol } else { body_eol });
             line_no += 1;
         }
     }
@@ -520,7 +533,7 @@ pub fn render(lines: &[Line], ch: &mut Ch, opts: LayoutOpts) -> Rendered {
                 text.push_str(COMMENTS[ch.upto(COMMENTS.len())]);
                 st.comment_lines += 1;
             }
-            text.push_str(eol);
+            text.push_str(body_eol);
             st.inserted_lines += 1;
         }
     }
